@@ -365,6 +365,20 @@ func (g *seqGen) Next(r *RNG, hist []Op) (Op, bool) {
 				delete(g.has, string(kb))
 			}
 		}
+		// torn tail: the legacy primary ends in a record that was being appended when the process died (it is in the primary and
+		// nowhere else); the upgrade must drop it whole
+		tear := 0
+		if n >= 1 && r.Bool(15) {
+			tk := g.keys[r.Intn(len(g.keys))]
+			tv := make([]byte, 1+r.Intn(12))
+			for i := range tv {
+				tv[i] = byte(r.Intn(256))
+			}
+			recs = append(recs, hx(tk)+":"+hx(tv))
+			gone = append(gone, strconv.Itoa(n))
+			n++
+			tear = 1 + r.Intn(4+len(tk)+len(tv)-1)
+		}
 		g.ifs = []int{1, 16, 100, 1024, 0}[r.Intn(5)]
 		g.pfs = []int{1, 16, 100, 1024, 0}[r.Intn(5)]
 		stale := strconv.Itoa(r.Intn(2))
@@ -372,9 +386,17 @@ func (g *seqGen) Next(r *RNG, hist []Op) (Op, bool) {
 		for _, k := range g.keys {
 			ks = append(ks, hx(k))
 		}
-		g.pending = append(g.pending, g.openOp(g.bits, g.ifs, g.pfs), mkOp("fsck"), mkOp("chunks", "k", joinRecKeys(recs)), mkOp("view"), mkOp("disk"))
+		if tear > 0 {
+			// (the chunk-size comparison of the `chunks` op assumes whole records)
+			g.pending = append(g.pending, g.openOp(g.bits, g.ifs, g.pfs), mkOp("fsck"), mkOp("view"), mkOp("disk"))
+		} else {
+			g.pending = append(g.pending, g.openOp(g.bits, g.ifs, g.pfs), mkOp("fsck"), mkOp("chunks", "k", joinRecKeys(recs)), mkOp("view"), mkOp("disk"))
+		}
 		g.readBackAll()
 		g.profile = "c10run"
+		if tear > 0 {
+			return mkOp("legacy", "bits", strconv.Itoa(g.bits), "recs", joinStr(recs), "freed", joinStr(freed), "bad", joinStr(bad), "gone", joinStr(gone), "stale", stale, "tear", strconv.Itoa(tear)), true
+		}
 		return mkOp("legacy", "bits", strconv.Itoa(g.bits), "recs", joinStr(recs), "freed", joinStr(freed), "bad", joinStr(bad), "gone", joinStr(gone), "stale", stale), true
 	}
 	if !g.started {
